@@ -33,8 +33,14 @@ def one(args):
     subprocess.run(["git","-C","/repo","worktree","add","-q","--detach",wt,HEAD],check=True)
     rebased=""
     try:
-        open(pfile,"w").write(patch)
-        r=subprocess.run(["git","apply",pfile],cwd=wt,capture_output=True,text=True)
+        remade = previous is not None and previous!=patch and ("re-made" in prevmeta.get("note","") or "no longer applies" in prevmeta.get("note",""))
+        if remade:
+            # a patch re-made by hand is never replaced by the exact revert (which may apply and no longer compile)
+            class _R: returncode=1
+            r=_R()
+        else:
+            open(pfile,"w").write(patch)
+            r=subprocess.run(["git","apply",pfile],cwd=wt,capture_output=True,text=True)
         if r.returncode!=0 and previous is not None and previous!=patch:
             # the exact revert no longer applies: the patch kept here was re-made by hand (sub-agent) on a later tree; it is re-measured, never overwritten
             open(pfile,"w").write(previous)
